@@ -19,6 +19,7 @@ type SQLOpts struct {
 	JSONHeavy  bool // at least one jsonb column (C04)
 	NoJSON     bool
 	Executable bool // restrict to shapes the executed CRUD property can drive (C05)
+	SelfFK     bool // tables referencing themselves through a gomacro-sql-foreign tag (not for the executed CRUD property)
 	ForeignIDs bool // foreign keys whose ID type is declared by another package of the module, which ships its own <T>ArrayToPQ helpers (C01 only: the target table is not created by the analysed file)
 	MaxTables  int
 }
@@ -484,6 +485,23 @@ func (sg *sqlGen) fillTable(idx int, tb *sqlTable) {
 		d.Fields = append(d.Fields, f)
 		fkFields = append(fkFields, fname)
 		nullableFK[fname] = nullable
+	}
+	if o.SelfFK && tb.primary && !used["Parent"] && rapid.IntRange(0, 4).Draw(t, "selfFK") == 0 {
+		// a table referencing itself (only possible through the tag: the table's own ID type is not a foreign key)
+		used["Parent"] = true
+		f := &Field{Name: "Parent", Tag: fmt.Sprintf(`gomacro-sql-foreign:"%s"`, tb.name)}
+		switch rapid.IntRange(0, 2).Draw(t, "selfFKForm") {
+		case 0:
+			f.Type = Std("database/sql", "NullInt64")
+			f.Tag += ` gomacro-sql-on-delete:"SET NULL"`
+		case 1:
+			f.Type = Std("database/sql", "NullInt64")
+		default:
+			f.Type = Basic("int64")
+			f.Tag += ` gomacro-sql-on-delete:"CASCADE"`
+		}
+		d.Fields = append(d.Fields, f)
+		o.class("sql:self_referencing_foreign_key")
 	}
 	if o.ForeignIDs && rapid.IntRange(0, 2).Draw(t, "foreignPkgID") == 0 {
 		// a key into a table of another package: the ID type (and its array helpers) live there
